@@ -6,7 +6,7 @@ from vf.core import pbytes
 from vf.grid import Grid
 
 SHARE_DAMAGE = ["delete", "trunc-header", "flip-all-blocks", "bad-share-version", "flip-data-byte", "flip-block-hash", "flip-share-hash", "flip-ueb", "flip-cthash",
-                "trunc-mid-data", "trunc-end-1", "flip-unused", "reblock", "reblock-one"]
+                "trunc-mid-data", "trunc-end-1", "flip-unused", "reblock", "reblock-one", "ueb-len-plus"]
 # damage after which the share can certainly not contribute a block (outside G-)
 CERTAIN = {"delete", "trunc-header", "flip-all-blocks", "bad-share-version", "reblock", "reblock-one"}
 SERVER_FAULTS = ["down", "fail-dyhb", "dead-dyhb", "fail-read-once", "fail-reads-from", "disconnect-after", "late"]
@@ -181,6 +181,11 @@ def apply_damage(path, kind, arg):
             return False
         imm_share.patch(path, a, bytes(data))
         imm_share.patch(path, ha, packed)
+    elif kind == "ueb-len-plus":
+        # the length field in front of the URI extension block promises more bytes than the share holds
+        a, b = F["ueb_len"]
+        cur = int.from_bytes(info["raw"][a:b], "big")
+        imm_share.patch(path, a, (cur + 1 + arg % 3).to_bytes(b - a, "big"))
     elif kind == "trunc-mid-data":
         a, b = F["data"]
         imm_share.truncate(path, a + arg % max(1, b - a))
